@@ -37,14 +37,14 @@ def run(tier):
     wd = vlib.workdir(PID)
     vlib.stage_specs(wd, "ift", "common")
     # (1) exhaustive family
-    mod = "MC_IFTEnumQuick" if quick else "MC_IFTEnum"
-    r = vlib.run_tlc(wd, mod, workers=8 if quick else 14, timeout=3400)
-    ck.add_tlc("tlc:" + mod, r)
-    if not r.ok:
-        ck.spec_error(mod, r)
-    res = vlib.run_harness("fv-ift", ["c19", "check-cases", "--cases", r.out, "--out", os.path.join(wd, "unused.ndjson")])
-    ck.add_harness("replay:enum", res)
-    os.remove(r.out)
+    for mod in ["MC_IFTEnumQuick" if quick else "MC_IFTEnum", "MC_IFTEnumDup"]:
+        r = vlib.run_tlc(wd, mod, workers=8 if quick else 14, timeout=3400)
+        ck.add_tlc("tlc:" + mod, r)
+        if not r.ok:
+            ck.spec_error(mod, r)
+        res = vlib.run_harness("fv-ift", ["c19", "check-cases", "--cases", r.out, "--out", os.path.join(wd, "unused.ndjson")])
+        ck.add_harness("replay:" + mod, res)
+        os.remove(r.out)
     # (2) extension loop: model check + run the same loops for real
     cfg = "MC_IFTExtend_quick.cfg" if quick else "MC_IFTExtend_thorough.cfg"
     r = vlib.run_tlc(wd, "MC_IFTExtend", cfg=cfg, workers=4 if quick else 12, timeout=3400)
